@@ -18,17 +18,22 @@ open GB
 /-- spec-level renaming: configured prefix, or the gateway prefix stripped; metadata keys are lower-case -/
 def rename (pfx a : Bytes) : Bytes := lower (renameRaw pfx a)
 
-/-- the admissible forwarded form of client value `w`. `wire = true`: the entry point carries
-    `-bin` values base64-encoded (HTTP headers, query, frames); `false`: already binary (gRPC). -/
-def admissible (wire : Bool) (k' : Bytes) (w v : Bytes) : Bool :=
-  if wire && hasBinSuffix k' then decodeBinHeader w == some v else v == w
+/-- the admissible forwarded form of client value `w` sent under name `k` and forwarded under `k'`.
+    `wire = true`: the entry point carries text (HTTP headers, query, frames) — a value forwarded under a
+    binary (`-bin`) key is the base64 decoding of what was sent, any other value is what was sent.
+    `wire = false` (gRPC): a value the client sent under a binary key IS binary already (grpc-go carries it
+    base64-encoded on the wire and hands it over decoded) and must arrive as exactly those bytes; a value sent
+    under a text key is text and is treated as on the other entry points. -/
+def admissible (wire : Bool) (k k' : Bytes) (w v : Bytes) : Bool :=
+  if !wire && grpcBin k then v == w
+  else if hasBinSuffix k' then decodeBinHeader w == some v else v == w
 
 def flatten (md : MD) : List (Bytes × Bytes) := md.flatMap (fun e => e.2.map (fun v => (e.1, v)))
 
 def entryOK (wire : Bool) (o : Opts) (items : List (Bytes × Bytes)) (e : Bytes × List Bytes) : Bool :=
   o.allowReq.any (fun a =>
     rename o.prefixReq a == e.1 &&
-    e.2.all (fun v => items.any (fun p => lower p.1 == lower a && admissible wire (renameRaw o.prefixReq a) p.2 v)))
+    e.2.all (fun v => items.any (fun p => lower p.1 == lower a && admissible wire p.1 (renameRaw o.prefixReq a) p.2 v)))
 
 /-- request direction: everything in `out` (what the target received) is licensed by the allow-list -/
 def reqSpec (wire : Bool) (o : Opts) (items : List (Bytes × Bytes)) (out : MD) : Bool :=
@@ -58,6 +63,12 @@ def items : Entry → Request → List (Bytes × Bytes)
   | .ws, r => r.qmd ++ flatten r.hdr
   | .grpcws, r => r.lines
   | .proxy, r => flatten r.hdr
+
+/-- what the entry point offers the filter, in wire form: on the proxy entry (after fix D13) the client's
+    binary values re-encoded; everywhere else exactly what the client sent -/
+def wireItems : Entry → Request → List (Bytes × Bytes)
+  | .proxy, r => if r.normalise then flatten (wireFormMetadata r.hdr) else flatten r.hdr
+  | e, r => items e r
 
 def Entry.wire : Entry → Bool
   | .proxy => false
